@@ -90,16 +90,20 @@ Theorem C17_shutdown_wait_returns_refuted :
 Proof. exact shutdown_wait_raises_refuted. Qed.
 Print Assumptions C17_shutdown_wait_returns_refuted.
 
-(* non-vacuity: a complete run of one job with a time limit that times out, next to a
-   shutdown(wait=True): delivered exactly once, reported unknown, quiescent at the end *)
+(* non-vacuity: a complete run of a job with a time limit that times out and of a job that
+   answers, next to a shutdown(wait=False) and a shutdown(wait=True): delivered exactly once,
+   reported unknown / unsat, quiescent at the end *)
 Example C17_nonvacuous :
   let sched := [LSubCheck 0; LSubAcquire 0; LSubAppend 0; LSubStart 0; LSubRelease 0;
-                LPopen 0 true; LSdSet 0; LSdSnap 0; LCommTimeout 0; LFinally 0;
-                LSetResult 0; LSdJoin 0; LSubWait 0; LSdReturn 0] in
-  exists st, run (init [true] [true]) sched = Some st /\
+                LSubCheck 1; LSubAcquire 1; LSubAppend 1; LSubStart 1; LSubRelease 1;
+                LPopen 0 true; LPopen 1 true; LSdSet 1; LSdSnap 1; LExit 1; LCommRet 1 AUnsat;
+                LFinally 1; LSetResult 1; LCommTimeout 0; LFinally 0;
+                LSetResult 0; LSubWait 0; LSubWait 1; LSdRaise 1; LSdSet 0; LSdAcquire 0;
+                LSdCancel 0 1; LSdCancel 0 0; LSdReturn 0] in
+  exists st, run (init [true; false] [false; true]) sched = Some st /\
     deliveries 0 sched = 1 /\ timed_out 0 sched /\ quiescentb st = true /\
-    map spc (jobs st) = [SGot VUnknown] /\ map proc (jobs st) = [PDead].
+    map spc (jobs st) = [SGot VUnknown; SGot VUnsat] /\ map proc (jobs st) = [PDead; PDead].
 Proof.
   cbv zeta. eexists. split; [vm_compute; reflexivity|].
-  repeat split; try reflexivity. unfold timed_out; simpl; auto 12.
+  repeat split; try reflexivity. unfold timed_out; simpl; auto 30.
 Qed.
